@@ -204,6 +204,37 @@ pub fn flatten(prefix: &str, v: &Value, out: &mut Vec<(String, Value)>) {
 }
 
 // ------------------------------------------------------------------------------------------------
+// panic sites: the family records where the last panic happened (file:line of the panic location)
+
+static LAST_PANIC: std::sync::Mutex<String> = std::sync::Mutex::new(String::new());
+
+pub fn record_panic_sites() {
+  let verbose = std::env::var("VERIF_PANIC_LOG").is_ok();
+  let _ = std::panic::take_hook();
+  std::panic::set_hook(Box::new(move |info| {
+    let loc = info.location().map(|l| format!("{}:{}", l.file(), l.line())).unwrap_or_default();
+    if verbose {
+      eprintln!("panic: {}", info.to_string().lines().take(3).collect::<Vec<_>>().join(" / "));
+    }
+    if let Ok(mut g) = LAST_PANIC.lock() {
+      *g = loc;
+    }
+  }));
+}
+
+pub fn clear_panic_site() {
+  if let Ok(mut g) = LAST_PANIC.lock() {
+    g.clear();
+  }
+}
+
+/// true when the last recorded panic was the `unwrap()` of argmin's error in `nelder_mead_1d`
+/// (NaN / infinite costs at every vertex: "Reached unreachable point")
+pub fn last_panic_in_nelder_mead() -> bool {
+  LAST_PANIC.lock().map(|g| g.contains("math/nelder_mead.rs")).unwrap_or(false)
+}
+
+// ------------------------------------------------------------------------------------------------
 // descriptors
 
 #[derive(Clone, Debug)]
@@ -1329,6 +1360,9 @@ fn c17_case(ctx: &mut Ctx, d: &Desc, tag: &str, spectra: bool) {
   if std::env::var("VERIF_PANIC_LOG").is_ok() {
     eprintln!("case: {}", d.json());
   }
+  clear_panic_site();
+  let outcome_first = guard(|| SPDC::from_json(d.json().to_string()).is_ok());
+  let construct_nm = outcome_first.is_none() && last_panic_in_nelder_mead();
   let run = run_desc(d);
   k_try(ctx, d, &run);
   let det = format!("edits={} {}", tag, detail(d));
@@ -1356,9 +1390,19 @@ fn c17_case(ctx: &mut Ctx, d: &Desc, tag: &str, spectra: bool) {
   let unphys = unphysical_beam(d);
   ctx.count(&format!("malformed/beam-angle-unphysical={}", unphys));
   let cls = |base: &str| if unphys { format!("{}/beam-angle-unphysical", base) } else { base.to_string() };
+  // a construction panic is identified by its site first
+  let cls_panic = |base: &str| {
+    if construct_nm {
+      format!("{}/nelder-mead-nan-cost", base)
+    } else if unphys {
+      format!("{}/beam-angle-unphysical", base)
+    } else {
+      base.to_string()
+    }
+  };
   match &run.outcome {
     None => {
-      let sig = if ls_le_lp { "construct/panic/ls<=lp".to_string() } else { cls("construct/panic") };
+      let sig = if ls_le_lp { "construct/panic/ls<=lp".to_string() } else { cls_panic("construct/panic") };
       ctx.s("C17.no_panic", false, &sig, &det);
     }
     Some(Err(_)) => ctx.s("C17.no_panic", same, "construct/err", &det),
@@ -1371,6 +1415,7 @@ fn c17_case(ctx: &mut Ctx, d: &Desc, tag: &str, spectra: bool) {
           None => ctx.s("C17.finite", false, &cls("setup/getter-panic"), &det),
         }
         if spectra {
+          clear_panic_site();
           match guard(|| spectra_finite(s)) {
             Some(Ok(())) => ctx.s("C17.spectra", true, "spectra/finite", &det),
             Some(Err(why)) => {
@@ -1378,10 +1423,19 @@ fn c17_case(ctx: &mut Ctx, d: &Desc, tag: &str, spectra: bool) {
               ctx.s("C17.spectra", false, &sig, &format!("bad={} {}", why, det));
             }
             None => {
-              // JointSpectrum::new unwraps try_as_optimum
+              let nm = last_panic_in_nelder_mead();
+              let site_js = LAST_PANIC.lock().map(|g| g.contains("jsa/joint_spectrum.rs")).unwrap_or(false);
+              // JointSpectrum::new unwraps try_as_optimum (checked again by the public call)
               let no_opt = guard(|| s.clone().try_as_optimum().is_err()).unwrap_or(true);
-              let sig = if unphys { cls("spectra/panic") } else if no_opt { "spectra/panic/no-optimum-setup".to_string() } else { "spectra/panic".to_string() };
-              ctx.s("C17.spectra", false, &sig, &det);
+              let sig = if nm {
+                "spectra/panic/nelder-mead-nan-cost".to_string()
+              } else if site_js && no_opt {
+                "spectra/panic/no-optimum-setup".to_string()
+              } else {
+                cls("spectra/panic")
+              };
+              let site = LAST_PANIC.lock().map(|g| g.clone()).unwrap_or_default();
+              ctx.s("C17.spectra", false, &sig, &format!("panic_site={} {}", site.replace(' ', "_"), det));
             }
           }
         }
@@ -1396,7 +1450,7 @@ fn c17_case(ctx: &mut Ctx, d: &Desc, tag: &str, spectra: bool) {
   }
   let auto_theta = matches!(d.c_theta, AutoV::Auto | AutoV::Absent);
   if auto_theta && matches!(d.poling, PolingD::Cfg { .. }) {
-    let sig = if ls_le_lp { "listed/autotheta+pp/ls<=lp".to_string() } else if run.outcome.is_none() { cls("listed/autotheta+pp") } else { "listed/autotheta+pp".to_string() };
+    let sig = if ls_le_lp { "listed/autotheta+pp/ls<=lp".to_string() } else if run.outcome.is_none() { cls_panic("listed/autotheta+pp") } else { "listed/autotheta+pp".to_string() };
     ctx.s("C17.listed", is_err, &sig, &det);
   }
   if ls_le_lp {
@@ -1456,10 +1510,7 @@ pub fn run(ctx: &mut Ctx) {
     debug_json(&ctx.extra[1]);
     return;
   }
-  if std::env::var("VERIF_PANIC_LOG").is_ok() {
-    let _ = std::panic::take_hook();
-    std::panic::set_hook(Box::new(|info| eprintln!("panic: {}", info.to_string().lines().take(3).collect::<Vec<_>>().join(" / "))));
-  }
+  record_panic_sites();
   let malformed = ctx.extra.iter().any(|a| a == "malformed");
   if !malformed {
     // the crate's own default and documented configurations first
